@@ -72,7 +72,7 @@ def errName : Err → String
   | .divZero => "divZero" | .negExp => "negExp" | .unsupUnary => "unsupUnary"
   | .unsupBinary => "unsupBinary" | .readOnly => "readOnly" | .badNumber => "badNumber"
   | .syntaxErr => "syntaxErr" | .recursion => "recursion" | .outOfDomain => "outOfDomain"
-  | .fuel => "fuel"
+  | .fuel => "fuel" | .unsupTarget => "unsupTarget"
 
 def showRes : Res → String
   | .ok v => "ok " ++ toString v
